@@ -64,12 +64,23 @@ type IndexedState struct {
 	remHook RemHookFn
 }
 
-func (s *IndexedState) withPrivilege(ctx *Context) {
-	ctx.grantPrivilege("hook")
+// withPrivilege returns a context for a hook to use: one that lets
+// the hook use this state without the lock, which the caller holds.
+//
+// That is a context of the hook's own and not the given one.  The
+// given context can be in use in other goroutines (the actions of a
+// rule run concurrently with one context, and so do the ticks of the
+// scheduled rules that one request loaded).  With the privilege on
+// it, those skip the lock that we hold, and, when the privilege is
+// gone again by the time they are done, unlock it.
+func (s *IndexedState) withPrivilege(ctx *Context) *Context {
+	hctx := ctx.SubContext()
+	hctx.grantPrivilege("hook")
+	return hctx
 }
 
-func (s *IndexedState) withoutPrivilege(ctx *Context) {
-	ctx.revokePrivilege()
+func (s *IndexedState) withoutPrivilege(hctx *Context) {
+	hctx.revokePrivilege()
 }
 
 func (s *IndexedState) slock(ctx *Context, read bool) {
@@ -369,9 +380,9 @@ func (s *IndexedState) add(ctx *Context, id string, x Map) (string, map[string]i
 
 	// Try the hook first?
 	if s.addHook != nil {
-		s.withPrivilege(ctx)
-		defer s.withoutPrivilege(ctx)
-		err := s.addHook(ctx, s, id, fact, ctx.GetLoc().loading)
+		hctx := s.withPrivilege(ctx)
+		defer s.withoutPrivilege(hctx)
+		err := s.addHook(hctx, s, id, fact, ctx.GetLoc().loading)
 		if err != nil {
 			Log(ERROR, ctx, "IndexedState.add", "state", s.Name, "error", err,
 				"when", "addHook")
@@ -481,9 +492,9 @@ func (s *IndexedState) Rem(ctx *Context, id string) (bool, error) {
 	defer s.sunlock(ctx, false)
 	if s.remHook != nil {
 		// Consider the lock.
-		s.withPrivilege(ctx)
-		defer s.withoutPrivilege(ctx)
-		err := s.remHook(ctx, s, id)
+		hctx := s.withPrivilege(ctx)
+		defer s.withoutPrivilege(hctx)
+		err := s.remHook(hctx, s, id)
 		if err != nil {
 			Log(ERROR, ctx, "IndexedState.Rem", "state", s.Name, "error", err,
 				"id", id, "when", "remHook")
@@ -575,10 +586,10 @@ func (s *IndexedState) remHooks(ctx *Context) error {
 		// Try to run the remHook for every fact.
 		//
 		// Consider the lock.
-		s.withPrivilege(ctx)
-		defer s.withoutPrivilege(ctx)
+		hctx := s.withPrivilege(ctx)
+		defer s.withoutPrivilege(hctx)
 		for id := range s.IdToFact {
-			err := s.remHook(ctx, s, id)
+			err := s.remHook(hctx, s, id)
 			if err != nil {
 				Log(ERROR, ctx, "IndexedState.Clear", "state", s.Name, "error", err,
 					"id", id, "when", "remHook")
